@@ -406,6 +406,11 @@ def toc_public_view(mc):
         pp = S.parent_path(ref)
         out[f"parent_path:{ref}"] = [str(p) for p in pp]
         out[f"children:{ref}"] = sorted(str(c) for c in S.children(ref))
+        for anc in pp[:-1]:  # ancestors, whether objects of them are attached themselves or not
+            try:
+                out[f"children-of-ancestor:{anc}"] = sorted(str(c) for c in S.children(anc))
+            except Exception as e:
+                out[f"children-of-ancestor:{anc}"] = f"{type(e).__name__}"
         out[f"provider:{ref}"] = S.provider(ref).json()
         out[f"jsonschema:{ref}"] = S[ref]
         names.update(p.name for p in pp)
